@@ -11,7 +11,8 @@ structure DState where
 
 def parseAcq (x : String) : Option Acq :=
   match x with
-  | "lock" => some .lock | "guard" => some .lock
+  | "lock" => some .lock | "guard" => some .lock | "lockw" => some .lock | "pguard" => some .lock
+  | "dtry" => some .try_ | "rtry" => some .try_
   | "sticky" => some .sticky
   | "trylock" => some .try_ | "tryguard" => some .try_
   | _ => none
